@@ -7,6 +7,7 @@ import "testing"
 
 func FuzzC10Agree(f *testing.F)   { propC10Agree.Fuzz(f) }
 func FuzzC10Laws(f *testing.F)    { propC10Laws.Fuzz(f) }
+func FuzzC10Schema(f *testing.F)  { propC10Schema.Fuzz(f) }
 func FuzzC11Single(f *testing.F)  { propC11Single.Fuzz(f) }
 func FuzzC11Multi(f *testing.F)   { propC11Multi.Fuzz(f) }
 func FuzzC12Order(f *testing.F)   { propC12.Fuzz(f) }
